@@ -553,7 +553,9 @@ def check_hist(prop, tier, seed, replay=None):
 # ------------------------------------------------------------------ C16 (engine omp)
 def build_omp(b):
     vs = [Variant("omp", openmp=1, mmc=1, mzdcache=0, flavour="mon", knobs=True),
-          Variant("seq", flavour="plain", knobs=True)]
+          Variant("seq", flavour="plain", knobs=True),
+          Variant("ompn", sse2=0, openmp=1, mmc=1, mzdcache=0, flavour="mon", knobs=True),
+          Variant("seqn", sse2=0, flavour="plain", knobs=True)]
     b.build_variants(vs)
     return b.build_engine("omp", ["gen.c", "eng/engutil.c", "eng/omp.c"], vs, "mon", core=("heap.c", "die.c", "fs.c", "sched.c")), vs
 
